@@ -358,9 +358,8 @@ Definition mkdir (s : vol) (parts : list name) : vol * res unit :=
           let s1 := set_fat s (FatAlloc.Model.mark_end P (v_fat s) c) in   (* ... and the cluster is zeroed *)
           let x := setitem s1 (r_index pr) (leaf parts) 16 0 c in
           match snd x with
-          | Err OSError_ENOSPC =>              (* except OSError: fs.fat.mark_free(cluster); raise *)
-            (set_fat (fst x) (FatAlloc.Model.mark_free (v_fat (fst x)) c), Err OSError_ENOSPC)
-          | Err e => (fst x, Err e)
+          | Err e =>                           (* except Exception: fs.fat.mark_free(cluster); raise *)
+            (set_fat (fst x) (FatAlloc.Model.mark_free (v_fat (fst x)) c), Err e)
           | Ok _ => (new_dir (fst x) c (r_cluster pr), Ok tt)    (* '.' and '..' *)
           end
         end
